@@ -10,6 +10,14 @@
 //	op N subme|subfnd <sid>        {sub topic=me|fnd}
 //	op N pubme|pubfnd <sid> <content>
 //	op <flt> pubsys <sid> <content>
+//	op N p2psub|p2pleave <sid> <k>   {sub|leave topic=usrX} to the k-th peer-to-peer topic (X = the other party)
+//	op <flt> p2ppub <sid> <k> <content> <noecho>
+//	op N p2punload <k>               idle timeout of the k-th peer-to-peer topic
+//
+// and the head lines
+//
+//	sysrow <user>                                  the user has a live subscription row on 'sys' (he is in sys.perUser)
+//	p2prow <k> <a> <b> wa= ga= wb= gb=             the k-th peer-to-peer topic: store.Topics.CreateP2P
 //
 // While the delete is held open only {pub} is served (by the topic goroutine, the hub is blocked
 // inside the store call); any other op first releases the hook, exactly as TopicLife.xstep does.
@@ -43,6 +51,74 @@ type x3Scn struct {
 	release  chan struct{}
 	sysBase  int
 	sysNames map[string]bool
+	sysSubs  []int     // users with a subscription row on 'sys' created for this scenario
+	sysDirty bool      // rows were added after 'sys' was loaded
+	p2p      []c03xP2P // the peer-to-peer topics of the scenario
+}
+
+type c03xP2P struct {
+	a, b int
+	name string
+}
+
+// every topic of the scenario, for the quiescence check
+func (x *x3Scn) c03xQuiet() []string {
+	q := []string{x.topic, "sys"}
+	for _, p := range x.p2p {
+		q = append(q, p.name)
+	}
+	return q
+}
+
+// the peer of the session's user in the k-th peer-to-peer topic ("" if the user is not a party: for him the
+// name usrX means another topic; no request is sent, the model ignores the event too)
+func (x *x3Scn) c03xPeer(si, k int) (string, string) {
+	if k < 1 || k > len(x.p2p) {
+		return "", ""
+	}
+	p := x.p2p[k-1]
+	switch x.sessUser[si] {
+	case p.a:
+		return x.uids[p.b].UserId(), p.name
+	case p.b:
+		return x.uids[p.a].UserId(), p.name
+	}
+	return "", ""
+}
+
+// nothing in memory survives a restart: the peer-to-peer topics go too (vScn.restart knows the group topic only)
+func (x *x3Scn) c03xUnloadP2P() {
+	for _, p := range x.p2p {
+		if t := globals.hub.topicGet(p.name); t != nil {
+			globals.hub.unreg <- &topicUnreg{rcptTo: p.name}
+			vWaitQuiet(x.c03xQuiet())
+		}
+	}
+}
+
+// push receipts of a publish to 'sys', message numbers relative to the start of the scenario
+func (x *x3Scn) c03xSysPush() {
+	for {
+		select {
+		case req := <-globals.usersUpdate:
+			if req == nil || req.PushRcpt == nil || req.PushRcpt.Payload.What != "msg" {
+				continue
+			}
+			r := req.PushRcpt
+			var to []int
+			for uid := range r.To {
+				to = append(to, x.uidIdx[uid])
+			}
+			sort.Ints(to)
+			var ts []string
+			for _, i := range to {
+				ts = append(ts, strconv.Itoa(i))
+			}
+			fmt.Fprintf(x.out, "S0 push seq=%d from=%d to=%s\n", r.Payload.SeqId-x.sysBase, x.uidx(r.Payload.From), strings.Join(ts, ","))
+		default:
+			return
+		}
+	}
 }
 
 var xAdminUid types.Uid
@@ -139,14 +215,15 @@ func (x *x3Scn) closeWindow() string {
 	memverif.SetHook("TopicDelete", nil)
 	close(x.release)
 	x.delSid = 0
-	hang := vWaitQuiet([]string{x.topic, "sys"})
+	hang := vWaitQuiet(x.c03xQuiet())
 	return hang
 }
 
 func (x *x3Scn) afterCrash() {
 	x.restart()
-	vWaitQuiet([]string{x.topic, "sys"})
+	vWaitQuiet(x.c03xQuiet())
 	memverif.ClearFault()
+	x.c03xUnloadP2P()
 	xReloadSys()
 }
 
@@ -211,6 +288,75 @@ func (x *x3Scn) emitExtra() {
 	for _, l := range ml {
 		fmt.Fprintln(out, l)
 	}
+	// the read-only bit and the subscribers of 'sys'
+	sysro := 0
+	var ssubs []string
+	if t := globals.hub.topicGet("sys"); t != nil {
+		if atomic.LoadInt32(&t.status)&topicStatusReadOnly != 0 {
+			sysro = 1
+		}
+		var is []int
+		for uid := range t.perUser {
+			if i, ok := x.uidIdx[uid]; ok {
+				is = append(is, i)
+			}
+		}
+		sort.Ints(is)
+		for _, i := range is {
+			ssubs = append(ssubs, strconv.Itoa(i))
+		}
+	}
+	fmt.Fprintf(out, "store sysro %d\n", sysro)
+	fmt.Fprintf(out, "store syssubs %s\n", strings.Join(ssubs, ","))
+	// loaded 'me' / 'fnd' topics that are read-only (never, on the unchanged code)
+	var mf []string
+	for _, i := range idx {
+		if t := globals.hub.topicGet(x.uids[i].UserId()); t != nil && atomic.LoadInt32(&t.status)&topicStatusReadOnly != 0 {
+			mf = append(mf, "m"+strconv.Itoa(i))
+		}
+		if t := globals.hub.topicGet(x.uids[i].FndName()); t != nil && atomic.LoadInt32(&t.status)&topicStatusReadOnly != 0 {
+			mf = append(mf, "f"+strconv.Itoa(i))
+		}
+	}
+	fmt.Fprintf(out, "store mefndro %s\n", strings.Join(mf, ","))
+	// the peer-to-peer topics
+	for k, p := range x.p2p {
+		pd := memverif.DumpTopic(p.name)
+		var pm []string
+		sort.Slice(pd.Msgs, func(i, j int) bool { return pd.Msgs[i].Seq < pd.Msgs[j].Seq })
+		for _, m := range pd.Msgs {
+			pm = append(pm, fmt.Sprintf("%d:%d:%s", m.Seq, x.uidIdx[m.From], m.Content))
+		}
+		t := globals.hub.topicGet(p.name)
+		if t == nil {
+			fmt.Fprintf(out, "store p2p %d loaded=0 ro=0 seqid=%d lastid=-1 users=- sess= msgs=%s\n", k+1, pd.SeqId, strings.Join(pm, ","))
+			continue
+		}
+		pro := 0
+		if atomic.LoadInt32(&t.status)&topicStatusReadOnly != 0 {
+			pro = 1
+		}
+		var us []string
+		for uid, pu := range t.perUser {
+			us = append(us, fmt.Sprintf("%d:%s/%s", x.uidIdx[uid], vModeStr(pu.modeWant), vModeStr(pu.modeGiven)))
+		}
+		sort.Strings(us)
+		var ss []int
+		for s := range t.sessions {
+			for i, vs := range x.sess {
+				if vs.s == s {
+					ss = append(ss, i)
+				}
+			}
+		}
+		sort.Ints(ss)
+		var sl []string
+		for _, i := range ss {
+			sl = append(sl, strconv.Itoa(i))
+		}
+		fmt.Fprintf(out, "store p2p %d loaded=1 ro=%d seqid=%d lastid=%d users=%s sess=%s msgs=%s\n", k+1, pro, pd.SeqId, t.lastID,
+			strings.Join(us, ","), strings.Join(sl, ","), strings.Join(pm, ","))
+	}
 }
 
 // own ops print the same block shape as vScn.op
@@ -221,8 +367,9 @@ func (x *x3Scn) tail(hang string, flt string) {
 	if flt != "N" && flt[0] == 'C' {
 		// the process died: nothing in memory survives
 		x.restart()
-		vWaitQuiet([]string{x.topic, "sys"})
+		vWaitQuiet(x.c03xQuiet())
 		memverif.ClearFault()
+		x.c03xUnloadP2P()
 		xReloadSys()
 	}
 	if hang != "" {
@@ -258,7 +405,7 @@ func (x *x3Scn) xop(w []string) {
 	sc := x.vScn
 	flt, kind, a := w[0], w[1], w[2:]
 	at := func(i int) int { v, _ := strconv.Atoi(a[i]); return v }
-	quiet := []string{sc.topic, "sys"}
+	quiet := x.c03xQuiet()
 	if x.delSid != 0 && kind != "pub" && kind != "delend" {
 		// the hub finishes the delete before anything else is handled; whatever that sends is not
 		// part of this op's compared projection (frames are compared on pub ops only)
@@ -367,8 +514,38 @@ func (x *x3Scn) xop(w []string) {
 				}
 				vs.mu.Unlock()
 			}
+			x.c03xSysPush()
 		}
 		x.tail(hang, flt)
+	case "p2psub", "p2pleave":
+		id := x.begin("N")
+		if peer, _ := x.c03xPeer(at(0), at(1)); peer != "" {
+			sc.send(at(0), `{"`+kind[3:]+`":{"id":"`+id+`","topic":"`+peer+`"}}`)
+		}
+		x.tail(vWaitQuiet(quiet), "N")
+	case "p2ppub":
+		peer, _ := x.c03xPeer(at(0), at(1))
+		if peer == "" {
+			// not a party: nothing is sent, nothing happens (whatever the fault plan says)
+			x.begin("N")
+			x.tail(vWaitQuiet(quiet), "N")
+			return
+		}
+		id := x.begin(flt)
+		ne := ""
+		if a[3] == "1" {
+			ne = `,"noecho":true`
+		}
+		sc.send(at(0), `{"pub":{"id":"`+id+`","topic":"`+peer+`","content":`+a[2]+ne+`}}`)
+		x.tail(vWaitQuiet(quiet), flt)
+	case "p2punload":
+		x.begin("N")
+		if k := at(0); k >= 1 && k <= len(x.p2p) {
+			if t := globals.hub.topicGet(x.p2p[k-1].name); t != nil && len(t.sessions) == 0 {
+				globals.hub.unreg <- &topicUnreg{rcptTo: x.p2p[k-1].name}
+			}
+		}
+		x.tail(vWaitQuiet(quiet), "N")
 	default:
 		if x.delSid != 0 {
 			// pub inside the window (the pending fault plan belongs to the delete): served by the topic
@@ -384,6 +561,7 @@ func (x *x3Scn) xop(w []string) {
 		}
 		sc.op(w)
 		if (flt != "N" && flt[0] == 'C') || kind == "restart" {
+			x.c03xUnloadP2P()
 			xReloadSys()
 		}
 		x.emitExtra()
@@ -404,7 +582,15 @@ func (x *x3Scn) xfinish() {
 	x.admin.s.cleanUp(true)
 	<-x.admin.done
 	x.finish()
-	vWaitQuiet([]string{x.topic, "sys"})
+	vWaitQuiet(x.c03xQuiet())
+	x.c03xUnloadP2P()
+	// the subscribers of 'sys' of this scenario go with it
+	for _, i := range x.sysSubs {
+		store.Subs.Delete("sys", x.uids[i])
+	}
+	if len(x.sysSubs) > 0 {
+		xReloadSys()
+	}
 }
 
 func TestVerifC03x(t *testing.T) {
@@ -474,12 +660,37 @@ func TestVerifC03x(t *testing.T) {
 				ModeWant: types.AccessMode(want), ModeGiven: types.AccessMode(given)}); err != nil {
 				t.Fatal("sub create: ", err)
 			}
+		case "sysrow":
+			i, _ := strconv.Atoi(w[1])
+			if err := store.Subs.Create(&types.Subscription{User: x.uids[i].String(), Topic: "sys",
+				ModeWant: types.ModeCSys, ModeGiven: types.ModeCSys}); err != nil {
+				t.Fatal("sys sub create: ", err)
+			}
+			x.sysSubs = append(x.sysSubs, i)
+			x.sysDirty = true
+		case "p2prow":
+			kv := vKV(w[4:])
+			ia, _ := strconv.Atoi(w[2])
+			ib, _ := strconv.Atoi(w[3])
+			md := func(k string) types.AccessMode { v, _ := strconv.Atoi(kv[k]); return types.AccessMode(v) }
+			name := x.uids[ia].P2PName(x.uids[ib])
+			if err := store.Topics.CreateP2P(
+				&types.Subscription{User: x.uids[ia].String(), Topic: name, ModeWant: md("wa"), ModeGiven: md("ga")},
+				&types.Subscription{User: x.uids[ib].String(), Topic: name, ModeWant: md("wb"), ModeGiven: md("gb")}); err != nil {
+				t.Fatal("p2p create: ", err)
+			}
+			x.p2p = append(x.p2p, c03xP2P{a: ia, b: ib, name: name})
 		case "sess":
 			si, _ := strconv.Atoi(w[1])
 			ui, _ := strconv.Atoi(w[2])
 			x.sessUser[si] = ui
 			x.sess[si] = vNewSession(si, x.uids[ui], auth.LevelAuth)
 		case "op":
+			if x.sysDirty {
+				// 'sys' was loaded before its rows of this scenario existed
+				xReloadSys()
+				x.sysDirty = false
+			}
 			x.xop(w[1:])
 		case "end":
 			x.xfinish()
